@@ -323,7 +323,7 @@ namespace xtl
     inline std::enable_if_t<std::is_lvalue_reference<CT>::value, T>
     xclosure_wrapper<CT>::get_storage_init(CTA&& e) const
     {
-        return &e;
+        return std::addressof(e);
     }
 
     template <class CT>
